@@ -110,7 +110,6 @@ func (bg *BondgoCheck) Create_Bondmachine(rsize int, filter string) (*bondmachin
 
 	unconnected_inputs := make(map[int]bool)
 
-	ext_input := make(map[int]string)
 	ext_input_keys := make([]int, 0)
 	ext_output := make(map[int]string)
 	ext_output_keys := make([]int, 0)
@@ -149,16 +148,26 @@ func (bg *BondgoCheck) Create_Bondmachine(rsize int, filter string) (*bondmachin
 		}
 	}
 
+	// An external input is an id that some processor reads and none writes. All its readers are
+	// attached to one BondMachine input, visited in processor order (bg.IOr is a map)
+	reader_procs := make([]int, 0, len(bg.IOr))
+	for proc_id := range bg.IOr {
+		reader_procs = append(reader_procs, proc_id)
+	}
+	sort.Ints(reader_procs)
+	ext_input_readers := make(map[int][]string)
 	for in_id, id_unconn := range unconnected_inputs {
 		if id_unconn {
-			for proc_id, ioref := range bg.IOr {
+			for _, proc_id := range reader_procs {
+				ioref := bg.IOr[proc_id]
 				for in_ord, in_idc := range ioref.Inputs_ids {
 					if in_id == in_idc {
-						ext_input[in_id] = "p" + strconv.Itoa(rel_procids[proc_id]) + "i" + strconv.Itoa(in_ord)
-						ext_input_keys = append(ext_input_keys, in_id)
-						//bmach.Add_bond([]string{"p" + strconv.Itoa(proc_id) + "i" + strconv.Itoa(in_ord), "i" + strconv.Itoa(bmach.Inputs-1)})
+						ext_input_readers[in_id] = append(ext_input_readers[in_id], "p"+strconv.Itoa(rel_procids[proc_id])+"i"+strconv.Itoa(in_ord))
 					}
 				}
+			}
+			if len(ext_input_readers[in_id]) > 0 {
+				ext_input_keys = append(ext_input_keys, in_id)
 			}
 		}
 	}
@@ -170,11 +179,12 @@ func (bg *BondgoCheck) Create_Bondmachine(rsize int, filter string) (*bondmachin
 	sort.Ints(ext_output_keys)
 	//fmt.Println(ext_input_keys, ext_output_keys)
 	for _, inp := range ext_input_keys {
-		inps := ext_input[inp]
 		if _, ok := bmach.Add_input(); ok != nil {
 			return nil, nil, errors.New("Input add failed")
 		} else {
-			bmach.Add_bond([]string{inps, "i" + strconv.Itoa(bmach.Inputs-1)})
+			for _, inps := range ext_input_readers[inp] {
+				bmach.Add_bond([]string{inps, "i" + strconv.Itoa(bmach.Inputs-1)})
+			}
 			residual.Map.Assoc["i"+strconv.Itoa(bmach.Inputs-1)] = strconv.Itoa(inp)
 		}
 	}
